@@ -26,6 +26,7 @@ def b64(x):
 
 
 def run(c):
+    c.go2coq_sources = ["c03.go", "textmatch.go"]   # private translator build: another family's generator cannot break this check
     thorough = c.tier == "thorough"
     c.rule = ("14 fixed MatchComment rules (named, unnamed-in-front, optional, nested, alternative (non-participating) groups, no groups "
               "= fast path, multi-byte, (?s) multi-line, Where filters, At(), Suggest, two alternatives) plus seeded random rules inserted at "
